@@ -56,7 +56,9 @@ const (
 	c03AccU8       = 8 // further sending accounts (own keys)
 	c03AccU9       = 9
 	c03AccFwd      = 10 // the forwarder (batching) contract, hand-assembled, deployed on every chain
-	c03NAcc        = 11
+	c03AccEmitter  = 11 // a contract that emits PacketSent-shaped logs (it is not the packet contract)
+	c03AccSwitch   = 12 // a callback contract with a switch: while it is on, every call to it reverts
+	c03NAcc        = 13
 )
 
 type c03PacketRec struct {
@@ -119,9 +121,15 @@ func newC03World(t *testing.T) *c03World {
 	if err != nil {
 		t.Fatal(err)
 	}
+	sk, err := ethsecp256k1.GenerateKey()
+	if err != nil {
+		t.Fatal(err)
+	}
 	for i := 0; i < c03NChains; i++ {
 		w.acc[c03AccFwd] = w.deployForwarder(i, fk)
 		w.emitter = w.deployRaw(i, ek, c03InitCode(c03EmitterRuntime()), len(c03EmitterRuntime()))
+		w.acc[c03AccEmitter] = w.emitter
+		w.acc[c03AccSwitch] = w.deployRaw(i, sk, c03InitCode(c03SwitchRuntime()), len(c03SwitchRuntime()))
 	}
 	// clients between every ordered pair (no relayers yet)
 	for i := 0; i < c03NChains; i++ {
@@ -190,6 +198,15 @@ func (w *c03World) commitAll() {
 func (w *c03World) viewCtx(i int) sdk.Context {
 	ctx, _ := w.ch[i].GetContext().CacheContext()
 	return ctx
+}
+
+// tryView: a view call that may fail (after a restart that lost a contract)
+func (w *c03World) tryView(i int, a abi.ABI, contract common.Address, method string, args ...interface{}) ([]interface{}, error) {
+	res, err := w.ch[i].App.XIBCKeeper.PacketKeeper.CallEVM(w.viewCtx(i), a, packettypes.ModuleAddress, contract, method, args...)
+	if err != nil {
+		return nil, err
+	}
+	return a.Unpack(method, res.Ret)
 }
 
 func (w *c03World) callView(i int, a abi.ABI, contract common.Address, method string, args ...interface{}) []interface{} {
@@ -267,9 +284,12 @@ func (w *c03World) asEndpoint(i int, to common.Address, data []byte) {
 
 func (w *c03World) erc20() abi.ABI { return erc20contracts.ERC20MinterBurnerDecimalsContract.ABI }
 
-func (w *c03World) mintERC20(i int, token, to common.Address, amt *big.Int) {
+// mintERC20 reports whether the mint went through (it reverts when the total supply would pass 2^256-1)
+func (w *c03World) mintERC20(i int, token, to common.Address, amt *big.Int) bool {
 	data, _ := w.erc20().Pack("mint", to, amt)
-	w.asEndpoint(i, token, data)
+	c := w.ch[i]
+	res, err := c.App.AggregateKeeper.CallEVMWithData(c.GetContext(), endpointcontract.EndpointContractAddress, &token, data)
+	return err == nil && !res.Failed()
 }
 
 func (w *c03World) balance(i int, token, who common.Address) *big.Int {
@@ -363,10 +383,15 @@ func (w *c03World) deliverAs(i int, key cryptotypes.PrivKey, addr sdk.AccAddress
 // updateClient commits a block on `of` and updates the light client of `of` kept on chain `on`.
 func (w *c03World) updateClient(on, of int) error {
 	w.coord.CommitBlock(w.ch[of])
-	header, err := w.ch[on].ConstructUpdateTMClientHeader(w.ch[of], c03ChainName(of))
+	// like TestChain.ConstructUpdateTMClientHeader, but the trusted validators are taken from the chain's (static)
+	// validator set instead of the staking module's historical info, which a restarted app does not have for old heights
+	header := w.ch[of].LastHeader
+	header.TrustedHeight = w.ch[on].GetClientState(c03ChainName(of)).GetLatestHeight().(clienttypes.Height)
+	tv, err := w.ch[of].Vals.ToProto()
 	if err != nil {
 		return err
 	}
+	header.TrustedValidators = tv
 	msg, err := clienttypes.NewMsgUpdateClient(c03ChainName(of), header, w.updAcc)
 	if err != nil {
 		return err
@@ -426,15 +451,23 @@ func (w *c03World) noteAcks(events []abci.Event) {
 
 // relayRecv: update dst's client of src, then MsgRecvPacket with the genuine proof of the commitment key.
 // pkt may be any bytes (for packets that were never sent the proof simply does not verify).
-func (w *c03World) relayRecv(src, dst int, seq uint64, pktBytes []byte, signer int) (*sdk.Result, error) {
+func (w *c03World) recvMsg(src, dst int, seq uint64, pktBytes []byte, signer int) (sdk.Msg, error) {
 	if err := w.updateClient(dst, src); err != nil {
 		return nil, err
 	}
 	key := host.PacketCommitmentKey(c03ChainName(src), c03ChainName(dst), seq)
 	cs := w.ch[dst].GetClientState(c03ChainName(src))
 	proof, height := w.ch[src].QueryProofAtHeight(key, int64(cs.GetLatestHeight().GetRevisionHeight()))
+	_, sa := w.signerOf(signer)
+	return packettypes.NewMsgRecvPacket(pktBytes, proof, height, sa), nil
+}
+
+func (w *c03World) relayRecv(src, dst int, seq uint64, pktBytes []byte, signer int) (*sdk.Result, error) {
+	msg, err := w.recvMsg(src, dst, seq, pktBytes, signer)
+	if err != nil {
+		return nil, err
+	}
 	sk, sa := w.signerOf(signer)
-	msg := packettypes.NewMsgRecvPacket(pktBytes, proof, height, sa)
 	res, err := w.deliverAs(dst, sk, sa, msg)
 	if err == nil && res != nil {
 		w.noteAcks(res.Events)
@@ -443,15 +476,23 @@ func (w *c03World) relayRecv(src, dst int, seq uint64, pktBytes []byte, signer i
 	return res, err
 }
 
-func (w *c03World) relayAck(src, dst int, seq uint64, pktBytes, ack []byte, signer int) (*sdk.Result, error) {
+func (w *c03World) ackMsg(src, dst int, seq uint64, pktBytes, ack []byte, signer int) (sdk.Msg, error) {
 	if err := w.updateClient(src, dst); err != nil {
 		return nil, err
 	}
 	key := host.PacketAcknowledgementKey(c03ChainName(src), c03ChainName(dst), seq)
 	cs := w.ch[src].GetClientState(c03ChainName(dst))
 	proof, height := w.ch[dst].QueryProofAtHeight(key, int64(cs.GetLatestHeight().GetRevisionHeight()))
+	_, sa := w.signerOf(signer)
+	return packettypes.NewMsgAcknowledgement(pktBytes, ack, proof, height, sa), nil
+}
+
+func (w *c03World) relayAck(src, dst int, seq uint64, pktBytes, ack []byte, signer int) (*sdk.Result, error) {
+	msg, err := w.ackMsg(src, dst, seq, pktBytes, ack, signer)
+	if err != nil {
+		return nil, err
+	}
 	sk, sa := w.signerOf(signer)
-	msg := packettypes.NewMsgAcknowledgement(pktBytes, ack, proof, height, sa)
 	res, err := w.deliverAs(src, sk, sa, msg)
 	if err == nil && res != nil {
 		w.notePackets(res.Events)
